@@ -213,3 +213,67 @@ func runC14z(c *Ctx) {
 	c.Check(ok && len(CallSites(fn, many)) == 0, pkg+".applyAutoAliasesDelta#per-snap-check", fn.Pos(), "one conflict check per snap", "applyAutoAliasesDelta no longer checks every snap for conflicts by itself: in a refresh of everything only the first busy snap is skipped, the others get alias tasks although another change is operating on them")
 	_ = strings.TrimSpace
 }
+
+// runC18z: the rule behind finding F17.
+func runC18z(c *Ctx) {
+	P := c.P
+	pkg := "asserts"
+	c.Rule("C18-R8", "G", "signature verification asks whether the digest algorithm named by the signature packet is available before instantiating it (crypto.Hash.New panics otherwise): a signature with an exotic digest id is refused with an error", 1)
+	vf := P.Func(pkg + ".(*openpgpPubKey).verify")
+	hashNew := P.FuncObj("crypto.Hash.New")
+	avail := P.FuncObj("crypto.Hash.Available")
+	calls := CallSites(vf, hashNew)
+	if len(calls) == 0 {
+		c.Undecided(pkg+".(*openpgpPubKey).verify#digest-available", vf.Pos(), "sig.Hash.New() not found")
+		return
+	}
+	for i, cc := range calls {
+		c.Guarded(fmt.Sprintf("%s.(*openpgpPubKey).verify#digest-available-before-use#%d", pkg, i+1), vf, cc, []Clause{{TrueRes("sig.Hash.Available()", true, 0, ToFn(avail))}}, &GOpt{NoVacuity: true})
+	}
+}
+
+// runC05z: the rule behind known finding F16.
+func runC05z(c *Ctx) {
+	P := c.P
+	c.Rule("C05-R7", "G", "customData.set keeps no entry whose JSON form is null (a typed nil pointer): such an entry is there until the state is saved and gone once it is loaded again, so Has/Get answer differently before and after a restart", 1)
+	set := P.Func("overlord/state.customData.set")
+	marshal := P.FuncObj("encoding/json.Marshal")
+	isSerialized := func(v ssa.Value) bool {
+		return DependsOnCall(v, marshal, func([]ssa.Value) bool { return true }) && !isErrorType(v.Type())
+	}
+	looksAtBytes := func(pol Pol) Atom {
+		return Atom{Name: "the serialized form was inspected (null?)", Match: func(cd Cond) Pol {
+			hit := false
+			if cd.Bin != nil && (isSerialized(cd.Bin.X) || isSerialized(cd.Bin.Y)) {
+				hit = true
+			}
+			if cd.Val != nil {
+				if cc, _, ok := CallResult(cd.Val); ok {
+					for _, a := range cc.Common().Args {
+						if isSerialized(a) {
+							hit = true
+						}
+					}
+				}
+			}
+			if !hit {
+				return PolNone
+			}
+			return pol
+		}}
+	}
+	n := 0
+	for _, b := range set.Blocks {
+		for _, in := range b.Instrs {
+			mu, ok := in.(*ssa.MapUpdate)
+			if !ok {
+				continue
+			}
+			n++
+			c.Guarded(fmt.Sprintf("overlord/state.customData.set#null-entry-not-stored#%d", n), set, mu, []Clause{{looksAtBytes(PolTrue), looksAtBytes(PolFalse)}}, &GOpt{NoVacuity: true})
+		}
+	}
+	if n == 0 {
+		c.Undecided("overlord/state.customData.set#store", set.Pos(), "the map update was not found")
+	}
+}
